@@ -326,6 +326,20 @@ pub fn check_case(c: &FCase, rec: &mut Rec) -> Verdict {
                     open_seen = true;
                 }
                 expected_rows.push(want == Tri::True);
+                // a Dict is also a resolver (`impl PathResolver for Dict`): used as the resolver of an evaluation of
+                // *another* record it must resolve paths in the record under evaluation, not in itself
+                if want != Tri::Open {
+                    for other in c.records.iter().filter(|o| *o != r).take(2) {
+                        let od = build_dict(other);
+                        let ctx = EvalContext::make(&d, &DEFAULT_NS, &od);
+                        let got = lib.eval(&ctx);
+                        let v = verdict_eval("eval-with-another-record-as-resolver", &text, r, got, want, &ks);
+                        if v.is_fail() {
+                            return v;
+                        }
+                        rec.class("resolver:another-record");
+                    }
+                }
             }
             // a caller-supplied resolver (refs through the store; cycles)
             let want = eval_or(&c.filter, r, &store);
